@@ -1,5 +1,6 @@
 import ActixModel.Proofs.Files
 import ActixModel.Proofs.PathBuf
+import ActixModel.Proofs.Url
 import ActixModel.Proofs.Range
 import ActixModel.Proofs.RangeSpec
 /-
@@ -181,6 +182,17 @@ theorem C16_request_inside (cfg : Config) (t : Tree) (getOrHead : Bool) (rawUriP
     ServedInside cfg.index
       (serve cfg t getOrHead (urlPath rawUriPath) (endsWithByte 0x2F (urlPath rawUriPath))) :=
   C16_serve_inside cfg t getOrHead _ _ hix
+
+/-- **C16_router_keeps_separators**: for every raw request target, the path the router hands on
+(`%XX` decoded except `%25 %2F %2B`, then lossy UTF-8) has exactly the `/` separators of the raw
+target: an encoded slash is never turned into a separator before `parse_path` sees (and refuses)
+it, and no separator is lost in invalid UTF-8. -/
+theorem C16_router_keeps_separators (raw : Bytes) :
+    countByte 0x2F (urlPath raw) = countByte 0x2F raw :=
+  urlPath_slashes raw
+
+example : urlPath (ascii ['/', 'a', '%', '2', 'f', '%', '2', 'e', '%', 'f', 'f']) =
+    ascii ['/', 'a', '%', '2', 'f', '.'] ++ replacement := by decide
 
 /-- **C16_serve_file_in_tree**: a served file is an entry of the tree below the root (the model's
 file system has nothing else), found under exactly the parsed path or that path plus the index name. -/
